@@ -447,6 +447,8 @@ def run(ctx, col: Collector):
         bd = pcls.methods.get('build_database')
         if pb is None or bd is None:
             raise AnchorMissing('PyDBMLParser.parse_blueprint / build_database')
+        from ..inline import inlined_info
+        pb = inlined_info(idx, pb)
         # classes produced by each top-level alternative
         kinds: Dict[str, Set[str]] = {}
         for flag in (False, True):
@@ -506,9 +508,14 @@ def run(ctx, col: Collector):
                             stores[cls] = how
                     nxt = cur.orelse
                     cur = nxt[0] if len(nxt) == 1 and isinstance(nxt[0], ast.If) else None
+        pb_names = {x.id for x in ast.walk(pb.node) if isinstance(x, ast.Name)}
         for cls in sorted(produced):
-            col.check(cls in stores, 'C01-wiring', f'parse_blueprint:{cls}', f'{cls} is filed under {stores.get(cls, ("", ""))[0]}',
-                      f'parse_blueprint has no branch that stores a {cls}: every declared element of that kind is dropped', node=pb.node, file=pb.file)
+            if cls in stores:
+                col.ok('C01-wiring', f'parse_blueprint:{cls}', f'{cls} is filed under {stores[cls][0]}', node=pb.node, file=pb.file)
+            elif cls in pb_names:
+                col.unk('C01-wiring', f'parse_blueprint:{cls}', f'parse_blueprint mentions {cls} but does not store it in a recognised form', node=pb.node, file=pb.file)
+            else:
+                col.bad('C01-wiring', f'parse_blueprint:{cls}', f'parse_blueprint never mentions {cls}: every declared element of that kind is dropped', node=pb.node, file=pb.file)
             if cls in stores:
                 col.check(stores[cls][1] in ('append', 'assign'), 'C01-wiring', f'parse_blueprint:{cls}:order',
                           'stored in source order', f'{cls} blueprints are stored with `{stores[cls][1]}`: source order is not kept',
@@ -564,9 +571,14 @@ def run(ctx, col: Collector):
                                 v = s.value
                     if isinstance(v, ast.Call) and isinstance(v.func, ast.Name):
                         model_of[cname] = v.func.id
+        add_names = {x.id for x in ast.walk(add.node) if isinstance(x, ast.Name)}
         for cname, m in sorted(model_of.items()):
-            col.check(m in dispatched, 'C01-wiring', f'Database.add:{m}', f'{m} -> {dispatched.get(m)}',
-                      f'Database.add has no branch for {m} (built from {cname})', node=add.node, file=add.file)
+            if m in dispatched:
+                col.ok('C01-wiring', f'Database.add:{m}', f'{m} -> {dispatched.get(m)}', node=add.node, file=add.file)
+            elif m in add_names:
+                col.unk('C01-wiring', f'Database.add:{m}', f'Database.add mentions {m} but not in a recognised `isinstance(obj, {m}) -> add_*` form', node=add.node, file=add.file)
+            else:
+                col.bad('C01-wiring', f'Database.add:{m}', f'Database.add never mentions {m} (built from {cname}): parsed elements of that kind cannot be added', node=add.node, file=add.file)
         # the add_* methods append (order kept)
         bad_order = []
         ctl = ast.parse('def f(self, x):\n    self.tables.insert(0, x)\n    self.refs = sorted(self.refs)\n')
